@@ -396,6 +396,12 @@ class ExprMixin(object):
                 return self.spec_env[name]
             if name in REG.specs or name in REG.ufuncs or name in self.SPEC_FUNCS:
                 return BuiltinV("spec:" + name)
+            if name.startswith("draw") and name[4:].isdigit():
+                k = int(name[4:])
+                if k < len(self.ctx.draws):
+                    return self.ctx.draws[k][1]
+                # no such draw on this path: an unconstrained value (clauses guard it with the path's condition)
+                return self.ctx.fresh("nodraw", self.ctx.num.sort)
         g = self.lookup_global(fr.module, name)
         if g is not NotImplemented:
             return g
@@ -714,6 +720,8 @@ class ExprMixin(object):
                 return self.dict_get(base, idx, spec)
         if isinstance(base, str):
             return base[idx]
+        if is_z3(base) and z3.is_array(base):
+            return z3.Select(base, self.Z(idx))
         raise VerifError("subscript on %r" % (base,))
 
     def slice_value(self, base, sl, spec):
